@@ -109,6 +109,8 @@ func (c *ctl) check() {
 	m := c.m
 	w := m.W
 	m.R.Step()
+	// tokens are locked only by successful sends (also for sends made inside a receive callback)
+	m.CheckLedger()
 	for ci, ch := range w.Chains {
 		ctx := ch.Ctx()
 		dsts := []string{bridge.TSSName, "no-such-chain"}
@@ -270,6 +272,11 @@ func (c *ctl) sendTSS(t *rapid.T) {
 		Fee: big.NewInt(0), Receiver: "0xremote"}
 	out := w.Send(spec, true)
 	m.Log("sendTSS", fmt.Sprintf("%d>tss %s", src, w.TokName(src, tok)), fmt.Sprintf("ok=%v", out.OK))
+	if out.OK {
+		for _, p := range out.Pkts {
+			m.ApplySendLedger(p)
+		}
+	}
 	c.onSend(out)
 }
 
@@ -281,10 +288,28 @@ func run(t *rapid.T, r *rec.Recorder) {
 		c.next = append(c.next, map[string]uint64{})
 		c.commits = append(c.commits, map[bridge.Triple][]byte{})
 	}
-	m.CallKinds = []string{"", "", "ok", "nested-unknown"}
+	m.CallKinds = []string{"", "", "ok", "nested-unknown", "agent", "agent"}
 	m.OnSend = c.onSend
 	m.OnAck = c.onAck
-	m.OnRecv = func(p *bridge.Pkt, o bridge.TxOutcome) { c.interleaved = true }
+	m.OnRecv = func(p *bridge.Pkt, o bridge.TxOutcome) {
+		c.interleaved = true
+		// sends made by the destination callback (agent forwarding) are sends of this chain like any other
+		for _, n := range p.Nested {
+			want := c.next[n.SrcIdx][n.P.DstChain]
+			if want == 0 {
+				want = 1
+			}
+			if n.P.Sequence != want {
+				m.Failf("send %s made inside a receive got sequence %d, expected next sequence %d", n.T, n.P.Sequence, want)
+			}
+			c.next[n.SrcIdx][n.P.DstChain] = want + 1
+			h := sha256.Sum256(n.Bz)
+			c.commits[n.SrcIdx][n.T] = h[:]
+			c.okSends++
+			c.dsts[fmt.Sprintf("%d>%s", n.SrcIdx, n.P.DstChain)] = true
+			m.R.Label("send_inside_receive")
+		}
+	}
 	acts := m.BaseActions()
 	acts["send3"] = m.Wrap(m.ActSend)
 	acts["sendInvalid"] = m.Wrap(c.sendInvalid)
